@@ -28,7 +28,7 @@ def history_case(L, first_ops):
         ids.install()
         try:
             objs, census, trace, kept = [], [], [], []
-            ranged_over = set()  # classes some evaluated query ranged over while instances of them were alive
+            yielded = []  # weak references to the instances that some evaluated query has returned
             tables0 = (len(S.SymbolicExpression._id_expression_map_), RWXNode._graph.num_nodes())
             v = {"no-exception": True}
 
@@ -58,25 +58,23 @@ def history_case(L, first_ops):
                         kept.append(q)
                 elif k == "query":  # evaluated completely, results and query dropped at once
                     cls = W.CLASSES[op[1]]
-                    if live_of(cls):
-                        ranged_over.add(cls)
                     res = list(an(entity(let(cls, None))).evaluate())
+                    yielded.extend(weakref.ref(r) for r in res)
                     del res
                 elif k == "query-explicit":  # explicit domain, evaluated completely
                     cls = W.CLASSES[op[1]]
                     dom = live_of(cls)
-                    if dom:
-                        ranged_over.add(cls)
                     x = let(cls, dom)
                     res = list(an(entity(x)).evaluate())
+                    yielded.extend(weakref.ref(r) for r in res)
                     del res, x, dom
                 elif k == "query-partial":  # only the first result is pulled, the iterator is abandoned
                     cls = W.CLASSES[op[1]]
-                    if live_of(cls):
-                        ranged_over.add(cls)
                     it = iter(an(entity(let(cls, None))).evaluate())
-                    next(it, None)
-                    del it
+                    r = next(it, None)
+                    if r is not None:
+                        yielded.append(weakref.ref(r))  # only this one was returned; the others were never asked for
+                    del it, r
 
             try:
                 for s in range(L):
@@ -104,12 +102,13 @@ def history_case(L, first_ops):
                 return v
             tables1 = (len(S.SymbolicExpression._id_expression_map_), RWXNode._graph.num_nodes())
             alive = [(c.__name__) for (w, c) in census if w() is not None]
-            leaked_ranged = [n for (w, c) in census if w() is not None and any(issubclass(c, r) for r in ranged_over) for n in [c.__name__]]
-            leaked_other = [n for (w, c) in census if w() is not None and not any(issubclass(c, r) for r in ranged_over) for n in [c.__name__]]
+            was_yielded = lambda o: any(y() is o for y in yielded)
+            leaked_ranged = [c.__name__ for (w, c) in census if w() is not None and was_yielded(w())]
+            leaked_other = [c.__name__ for (w, c) in census if w() is not None and not was_yielded(w())]
             ctx.observe([list(map(str, o)) for o in trace], alive)
             ctx.note("nonempty", bool(census))
             v["dropped-instances-are-reclaimed"] = not leaked_other
-            v["dropped-instances-are-reclaimed[an-evaluated-query-ranged-over-them]"] = not leaked_ranged
+            v["dropped-instances-are-reclaimed[an-evaluated-query-returned-them]"] = not leaked_ranged
             # what a domain-less variable sees afterwards, and what the registry keeps, for the classes nothing leaked of
             clean = [t for t in ("T", "Org", "Human", "Other") if not any(w() is not None and issubclass(c, W.CLASSES[t]) for (w, c) in census)]
             try:
@@ -154,7 +153,7 @@ def describe(tier):
         rule="histories of %d operations (bounded symbolic choices among create T/Sub/Org/Human, relate, drop reference i, gc.collect(), declare a domain-less query without "
         "evaluating it (kept or dropped), evaluate a domain-less / explicit-domain query completely, evaluate partially and abandon) on the real SymbolGraph, reference "
         "counting and collector; then the program drops every instance and query and collects. Checked: weak references to dropped instances are dead (separately for "
-        "instances an evaluated query ranged over), they are absent from domain-less variables, the registry (graph nodes, per-class lists, instance index, relation "
+        "instances that an evaluated query has returned), they are absent from domain-less variables, the registry (graph nodes, per-class lists, instance index, relation "
         "index, edges) is empty when nothing is alive, and the process-wide expression tables are back to their size. distinct = distinct histories; "
         "non-trivial = at least one instance was created" % L,
         bounds=dict(history_length=L, classes="T, Sub, Org, Human", ids="every reuse pattern of dead ids"),
